@@ -8,6 +8,7 @@ func init() {
 	rangeShapes = append(rangeShapes, rangeShapes7...)
 	rangeShapes = append(rangeShapes, scopingShapes...)
 	delegationShapes = append(delegationShapes, delegationShapes7...)
+	panicShapes = append(panicShapes, panicShapes7...)
 	bystanderShapes = append(bystanderShapes, bystanderShapes7...)
 	injections = append(injections, injections7...)
 	closureInGeneratorShapes = append(closureInGeneratorShapes, closureInGeneratorShapes7...)
@@ -255,6 +256,38 @@ $GEN{$NH(a int)}{int}{
 	}
 	$RET
 }`, entries: []*Entry{drive("$NH", "int", 1, nil)}},
+	// user closures over the methods of an iterator VARIABLE that is re-assigned afterwards: they must follow the variable
+	{name: "closures-over-methods-of-a-reassigned-iterator-variable", decls: baseGen + `
+func $NC(a int) (res int) {
+	it := $NG(a)
+	next := func() bool { return it.MoveNext() }
+	cur := func() int { return it.Current() }
+	n := 0
+	for next() {
+		res = res*3 + cur()
+		n++
+		if n == 2 {
+			it = $NG(a + 10)
+		}
+	}
+	return
+}
+
+func $NDrainBoth(x, y $ITER{int}) (res int) {
+	it := x
+	more := func() bool { return it.MoveNext() }
+	for more() {
+		res = res*2 + it.Current()
+	}
+	it = y
+	for more() {
+		res = res*2 + it.Current()
+	}
+	return
+}
+
+func $ND(a int) int { return $NDrainBoth($NG(a), $NG(a+1)) }
+`, entries: []*Entry{callEntry("$NC", 1, nil), callEntry("$ND", 1, nil)}},
 	{name: "method-generator-on-generic-type", decls: `
 type $NBox[T any] struct {
 	xs  []T
@@ -907,6 +940,31 @@ func $NB(a int) (res int) {
 	}
 	return
 }`, entries: []*Entry{callEntry("$NB", 1, nil)}},
+	// a closure over a method of an interface variable that is NEVER assigned and nil at run time: the method value s.Get panics
+	// when it is evaluated, the closure only when it is called - if it is called at all
+	{name: "eta-method-of-a-never-assigned-nil-interface", tags: []string{"eta-shape"}, decls: byGen + `
+type $NI interface{ Get(int) int }
+
+func $NUse(s $NI, a int) (res int) {
+	defer func() {
+		if r := recover(); r != nil {
+			res = -res - 1
+		}
+	}()
+	g := func(x int) int { return s.Get(x) }
+	res = 10
+	if a > 2 {
+		res = g(a)
+	}
+	return
+}
+
+func $NB(a int) int {
+	var s $NI
+	h := func(x int) int { return s.Get(x) }
+	_ = h
+	return $NUse(nil, a)*100 + $NUse(s, a+1)
+}`, entries: []*Entry{callEntry("$NB", 1, nil)}},
 	{name: "range-over-func-outside-generators", decls: byGen + `
 func $NSeq(n int) func(func(int) bool) {
 	return func(y func(int) bool) {
@@ -1132,4 +1190,41 @@ $GEN{$NT[S ~[]int](xs S, a int)}{int}{
 	$YIELD{n}
 	$RET
 }`, entries: []*Entry{drive("$NG", "int", 1, nil), {Name: "$NT", Kind: "drive", Call: "$P$NT([]int{0, 1, 2, 3, 4, 5}, $0)", Elem: "int", Inputs: allInputs(1, 0, 3), Scripts: []string{"std"}}}},
+}
+
+// ---- panics (C18) ----------------------------------------------------------------------------------
+
+var panicShapes7 = []shape{
+	// a closure over a method of a nil interface PARAMETER (never assigned) is created in the first step and called in a later
+	// one, or never: the nil dereference belongs to the advance that CALLS the closure
+	{name: "closure-over-method-of-nil-interface-parameter-created-early-called-late", tags: []string{"panic"}, decls: `
+type $NSrc interface{ Next() int }
+
+type $NImpl struct{ v int }
+
+func (s *$NImpl) Next() int { s.v++; return s.v }
+
+$GEN{$NPull(src $NSrc, n int)}{int}{
+	pull := func() int { return src.Next() }
+	tr.Ev(1, n)
+	$YIELD{0}
+	$YIELD{1}
+	if n > 1 {
+		$YIELD{pull()}
+	}
+	$YIELD{3}
+	$RET
+}
+
+$GEN{$NG(a int)}{int}{
+	var none $NSrc
+	$YIELD{100}
+	if a%2 == 0 {
+		$YFROM{$NPull(none, a)}
+	} else {
+		$YFROM{$NPull(&$NImpl{v: 40}, a)}
+	}
+	$YIELD{200}
+	$RET
+}`, entries: []*Entry{drive("$NG", "int", 1, nil)}},
 }
